@@ -77,6 +77,13 @@ theorem fromMontgomery_correct {a : L4} (ha : a.ok) :
 theorem toMontgomery_correct {x : L4} (hx : x.ok) :
     limbOk (FiatField.toMontgomery x) ∧ limbVal (FiatField.toMontgomery x) = (x.eval : ZMod P) := limb_toMont hx
 
+/-- `SqrtRatio` is safe under aliasing of its receiver with either operand: the specialisations generated with the receiver
+sharing the cell of `u`, respectively of `v`, are the same function of the operands (every temporary is read before the
+receiver is written) -/
+theorem sqrtRatio_alias_safe {α : Type} (F : FieldOps α) (u v : α) :
+    FieldChains.sqrtRatio_eu F u v = FieldChains.sqrtRatio F u v ∧ FieldChains.sqrtRatio_ev F v u = FieldChains.sqrtRatio F u v :=
+  ⟨rfl, rfl⟩
+
 /-- the method wrappers of `internal/field/element.go` (regenerated from their Go bodies on every run) are the fields of the
 operations record all of the above is stated about -/
 theorem method_wrappers_tied (c : Nat) (e u v : L4) :
